@@ -510,6 +510,15 @@ func genWellFormedLines(t *rapid.T, format string, nrecs int) []gen.B {
 			}
 		}
 	}
+	// SAM, BED, FASTA and Newick readers tolerate empty lines; they are part of what LF/CRLF
+	// independence has to cover (an empty CRLF line is "\r\n").
+	if format != "fastq" && len(lines) > 0 && rapid.IntRange(0, 3).Draw(t, "blankLines") == 0 {
+		nb := rapid.IntRange(1, 3).Draw(t, "nblank")
+		for i := 0; i < nb; i++ {
+			pos := rapid.IntRange(1, len(lines)).Draw(t, "blankPos")
+			lines = append(lines[:pos:pos], append([]gen.B{{}}, lines[pos:]...)...)
+		}
+	}
 	return lines
 }
 
